@@ -268,7 +268,7 @@ def gen_cases(chk, rng):
     g = Gen(rng)
     quick = chk.tier == "quick"
     lines = []
-    nreg = 6000 if quick else 90000
+    nreg = 12000 if quick else 90000
     for i in range(nreg):
         kind = KINDS[i % 4]
         prog = g.prog()
@@ -286,7 +286,7 @@ def gen_cases(chk, rng):
                 k2 = rng.below(j + 1)
                 perm[j], perm[k2] = perm[k2], perm[j]
             lines.append(reg_line(kind, fast, prog, perm, pen))
-    ncls = 3000 if quick else 45000
+    ncls = 6000 if quick else 45000
     for i in range(ncls):
         kind = ["dyn", "gau", "bin"][i % 3]
         prog = g.prog()
